@@ -172,9 +172,10 @@ pub fn run(args: &Args, mon: &mut Mon) -> (String, Vec<&'static str>) {
             Err(p) => m.violation(format!("panic:{}", p.site()), p.0, json!({"case": info, "policy": format!("{pol:?}"), "events": evs.iter().map(|e| format!("{e:?}")).collect::<Vec<_>>()})),
         }
     });
+    let sock_rule = if focus == "C05" { crate::sock::run_part(args, mon, if thorough { 8_000 * scale } else { 500 * scale }) } else { "" };
     let common = "real MultiPathManager + PathSet stepped through scion-stack's verif-hooks on a virtual clock (the harness plays the background task under ideal scheduling: maintenance exactly when due, issues handled when reported); scripted PathFetcher; paths from the real combinator over generated topologies in 3 generations (same routes re-beaconed later), hop expiry classes 337 s .. 24 h; configurations drawn from all validator-accepted combinations of cache size 1-50, refetch interval, minimum delay, expiry threshold, dedup window, swap threshold, issue memory 1-100, backoff";
     let rule = match focus {
-        "C05" => format!("{n} histories of 4-40 events {{lookup returns subset/other generation/metadata-stripped paths, empty, error; clock steps 0.5 s..5.5 h, to next maintenance, around the active path's expiry; SCMP/first-hop reports; send}} with a policy attached (sciparse ACL deny-AS, closure policies deny-interface / max-length / deny-all, none): every path handed to a sender is re-evaluated against the policy by the monitor, must join the requested pair and be one some lookup returned; cache contents obey the policy after every step. {common}. distinct = (send outcome, cache size, last lookup class) classes."),
+        "C05" => format!("{n} histories of 4-40 events {{lookup returns subset/other generation/metadata-stripped paths, empty, error; clock steps 0.5 s..5.5 h, to next maintenance, around the active path's expiry; SCMP/first-hop reports; send}} with a policy attached (sciparse ACL deny-AS, closure policies deny-interface / max-length / deny-all, none): every path handed to a sender is re-evaluated against the policy by the monitor, must join the requested pair and be one some lookup returned; cache contents obey the policy after every step. {common}. distinct = (send outcome, cache size, last lookup class) classes. {sock_rule}"),
         "C06" => format!("{n} histories as above with adversarial timing (steps straddling expiry, threshold, refetch and backoff boundaries; failing and empty lookups): no expired path handed out; a sender is not refused while an unexpired path is cached; cache <= configured maximum; issue memory (map and queue) <= configured size; after every lookup the next one is scheduled within [minimum delay, max(refetch interval, backoff ceiling)]. {common}. distinct as above."),
         _ => format!("{n} histories as above biased to failure reports (external interface down at every egress position, internal connectivity down at every transit AS, first-hop send failure, reports naming foreign interfaces): if a valid cached path avoids the reported interface the next active path avoids it; no return to it within 30 s; a report matching no cached path changes neither the active path nor any score. {common}. distinct as above."),
     };
